@@ -374,6 +374,17 @@ func (r *Ref) Close() error {
 	if r.Srv != nil && r.Srv.L != nil {
 		err = r.Srv.Stop()
 	}
+	// tacquito's Loader goroutine has no way to stop; it would keep the whole configuration
+	// (providers, users, handlers) alive for ever. Hand it a minimal configuration so that
+	// long runs which start thousands of reference servers only leak a parked goroutine each.
+	tiny := config.ServerConfig{
+		Secrets: []config.SecretConfig{Scope("closed", "closed", "192.0.2.255/32")},
+		Users:   []config.User{{Name: "closed", Scopes: []string{"closed"}}},
+	}
+	select {
+	case r.srcChan <- tiny:
+	default:
+	}
 	r.cancel()
 	return err
 }
